@@ -51,7 +51,7 @@ MANIFEST = {
 EXPLANATION = MANIFEST["level_text"]
 TRUSTED = [
     "pyvc VC generator and its encoding of Python ints/str/bytes/lists (DESIGN §3.1)",
-    "z3 5.1.0 / cvc5 1.0.3",
+    "z3 5.1.0 / cvc5 1.4.0",
     "falcon: an HTTPError raised in process_request stops dispatch and becomes its status (HTTPContentTooLarge=413, HTTPUnsupportedMediaType=415, HTTPBadRequest=400); req.get_header returns None when absent; req.bounded_stream.read(n) returns min(n, remaining) bytes of the body and never more than Content-Length in total; middleware run in list order",
     "zstandard / zlib reader contracts of contracts/lib_codec_model.py (exercised on the real libraries by C18's bounded stand-in)",
     "_codec.decompress contract (proved in C18): identity returns the data itself iff it fits the cap, zstd/gzip return the decoded stream (no longer than the cap) or raise DecompressionLimitExceeded / the library's error",
